@@ -17,6 +17,7 @@ import (
 	"github.com/ucan-wg/go-ucan/did"
 	"github.com/ucan-wg/go-ucan/pkg/args"
 	"github.com/ucan-wg/go-ucan/pkg/command"
+	"github.com/ucan-wg/go-ucan/pkg/meta"
 	"github.com/ucan-wg/go-ucan/pkg/policy"
 	"github.com/ucan-wg/go-ucan/pkg/policy/literal"
 	"github.com/ucan-wg/go-ucan/token/delegation"
@@ -29,9 +30,9 @@ import (
 
 // TokSpec describes a token by the option values that deviate from the base token.
 type TokSpec struct {
-	Kind string         `json:"kind"` // "dlg" | "inv"
-	Alg  string         `json:"alg"`
-	Key  int            `json:"key"`
+	Kind string            `json:"kind"` // "dlg" | "inv"
+	Alg  string            `json:"alg"`
+	Key  int               `json:"key"`
 	Opts map[string]string `json:"opts,omitempty"` // option name -> value label (absent = base value)
 }
 
@@ -167,7 +168,7 @@ func tokPolicy(label string) policy.Policy {
 			policy.Any(".l", policy.All(".[]", policy.LessThan(".", literal.Int(-3)))),
 		)
 	case "int53max":
-		return policy.MustConstruct(policy.Equal(".a", literal.Int(1<<53-1)), policy.LessThan(".b", literal.Int(-(1<<53 - 1))))
+		return policy.MustConstruct(policy.Equal(".a", literal.Int(1<<53-1)), policy.LessThan(".b", literal.Int(-(1<<53-1))))
 	case "int53over":
 		return policy.MustConstruct(policy.Equal(".a", literal.Int(1<<53)))
 	case "values":
@@ -493,6 +494,74 @@ func unixStr(t *time.Time) string {
 	return fmt.Sprint(t.Unix())
 }
 
+// metaGetters renders what the typed metadata getters return for a key, and checks them against
+// the node itself: a getter of kind K returns the node's value iff the node is of kind K.
+func metaGetters(m meta.ReadOnly, k string, n datamodel.Node) (string, []string) {
+	var bad []string
+	var parts []string
+	chk := func(name string, kind datamodel.Kind, got string, err error, want string) {
+		if n.Kind() == kind {
+			if err != nil || got != want {
+				bad = append(bad, fmt.Sprintf("%s(%q) = %s, %v on a %s node holding %s", name, k, got, err, n.Kind(), want))
+			}
+			parts = append(parts, name+"="+got)
+		} else if err == nil {
+			bad = append(bad, fmt.Sprintf("%s(%q) succeeds (%s) on a %s node", name, k, got, n.Kind()))
+		}
+	}
+	b, err := m.GetBool(k)
+	wb, _ := n.AsBool()
+	chk("GetBool", datamodel.Kind_Bool, fmt.Sprint(b), err, fmt.Sprint(wb))
+	s, err := m.GetString(k)
+	ws, _ := n.AsString()
+	chk("GetString", datamodel.Kind_String, fmt.Sprintf("%q", s), err, fmt.Sprintf("%q", ws))
+	i, err := m.GetInt64(k)
+	wi, _ := n.AsInt()
+	chk("GetInt64", datamodel.Kind_Int, fmt.Sprint(i), err, fmt.Sprint(wi))
+	f, err := m.GetFloat64(k)
+	wf, _ := n.AsFloat()
+	chk("GetFloat64", datamodel.Kind_Float, fmt.Sprintf("%x", f), err, fmt.Sprintf("%x", wf))
+	x, err := m.GetBytes(k)
+	wx, _ := n.AsBytes()
+	chk("GetBytes", datamodel.Kind_Bytes, hex.EncodeToString(x), err, hex.EncodeToString(wx))
+	g, err := m.GetNode(k)
+	if err != nil || cborHex(g) != cborHex(n) {
+		bad = append(bad, fmt.Sprintf("GetNode(%q) differs from the iterated node: %v", k, err))
+	}
+	if _, err := m.GetNode(k + "-absent"); err == nil {
+		bad = append(bad, "GetNode of an absent key succeeds")
+	}
+	return strings.Join(parts, ","), bad
+}
+
+// AccessorProblems lists disagreements between a token's typed accessors and its iterated content.
+func AccessorProblems(tok any) []string {
+	var bad []string
+	var m meta.ReadOnly
+	switch t := tok.(type) {
+	case *delegation.Token:
+		m = t.Meta()
+	case *invocation.Token:
+		m = t.Meta()
+		for k, n := range t.Arguments().Iter() {
+			g, err := t.Arguments().GetNode(k)
+			if err != nil || cborHex(g) != cborHex(n) {
+				bad = append(bad, fmt.Sprintf("Arguments().GetNode(%q) differs from the iterated node: %v", k, err))
+			}
+		}
+		if _, err := t.Arguments().GetNode("no-such-key"); err == nil {
+			bad = append(bad, "Arguments().GetNode of an absent key succeeds")
+		}
+	default:
+		return nil
+	}
+	for k, n := range m.Iter() {
+		_, b := metaGetters(m, k, n)
+		bad = append(bad, b...)
+	}
+	return bad
+}
+
 // ViewOf projects a token through its public accessors.
 func ViewOf(tok any) TokView {
 	switch t := tok.(type) {
@@ -506,7 +575,8 @@ func ViewOf(tok any) TokView {
 			v.Pol = cborHex(pn)
 		}
 		for k, n := range t.Meta().Iter() {
-			v.Meta[k] = cborHex(n)
+			g, _ := metaGetters(t.Meta(), k, n)
+			v.Meta[k] = cborHex(n) + "/" + g
 		}
 		return v
 	case *invocation.Token:
@@ -516,7 +586,8 @@ func ViewOf(tok any) TokView {
 			v.Args[k] = cborHex(n)
 		}
 		for k, n := range t.Meta().Iter() {
-			v.Meta[k] = cborHex(n)
+			g, _ := metaGetters(t.Meta(), k, n)
+			v.Meta[k] = cborHex(n) + "/" + g
 		}
 		for _, c := range t.Proof() {
 			v.Prf = append(v.Prf, c.String())
